@@ -294,12 +294,15 @@ _V = {}
 def verdict(prog, kind):
     key = (id(prog), kind)
     if key not in _V:
-        try:
-            _V[key] = _verdict(prog, kind)
-        except Unknown as e:
-            _V[key] = (None, "cannot fold new_%s: %s" % (kind, e))
-        except RecursionError:
-            _V[key] = (None, "recursion while folding new_%s" % kind)
+        def compute():
+            try:
+                return _verdict(prog, kind)
+            except Unknown as e:
+                return (None, "cannot fold new_%s: %s" % (kind, e))
+            except RecursionError:
+                return (None, "recursion while folding new_%s" % kind)
+        from ..vcache import cached
+        _V[key] = cached("groups/%s" % kind, prog, [MOD, "cnfgen.localtypes", "cnfgen.graphs"], compute)
     return _V[key]
 
 
